@@ -1,6 +1,7 @@
 package vm
 
 import (
+	"context"
 	"encoding/binary"
 	"slices"
 
@@ -438,6 +439,12 @@ func NextBuiltin(vm *Thread, val value.Value) (result, err value.Value) {
 	case *value.RightOpenRangeIterator:
 		return RightOpenRangeIteratorNext(vm, v)
 	case value.NativeIterator:
+		// blocking iterators (channels) must observe the thread's aborter, like their `next` method does
+		if c, ok := v.(interface {
+			NextValueCtx(ctx context.Context) (value.Value, value.Value)
+		}); ok && vm != nil && vm.Aborter != nil {
+			return c.NextValueCtx(vm.Aborter.Context())
+		}
 		return v.NextValue()
 	default:
 		return value.Undefined, value.Undefined
